@@ -240,6 +240,105 @@ def restartRun (E : Env) (cfg : Config) (names : List String) (files : Saved) : 
 def restartRunOrig (E : Env) (cfg : Config) (names : List String) (files : Saved) : Option RunOut :=
   processSaved E cfg [] names files
 
+/-! ### the run set-up (audit 2-C GAP 1-4, audit 2-B C09-3)
+
+What the second half of `process_sample` reads of the command line AND of the input files of the experiment:
+`args.read_group` (`ReadAssignmentAggregator`: the grouped tables are written iff it is truthy) and
+`args.use_technical_replicas` (`GraphBasedModelConstructor`: a novel intron chain whose reads all carry one read group is
+dropped).  A BAM run computes them from its command line and `len(sample.file_list)`; a restart has ONE "file" - the
+prefix - so both must come from `_info`. -/
+
+/-- `args.read_group`, `args.use_technical_replicas` when `process_assigned_reads` starts -/
+structure Setup where
+  readGroup : Option String
+  useTechnicalReplicas : Bool
+  deriving DecidableEq, Repr
+
+/-- `self.args.use_technical_replicas = self.args.read_group == "file_name" and input_file_count > 1` -/
+def mkSetup (readGroup : Option String) (fileCount : Nat) : Setup :=
+  { readGroup := readGroup, useTechnicalReplicas := readGroup == some "file_name" && decide (1 < fileCount) }
+
+/-- `set_data_dependent_options`: `if args.read_group is None and args.input_data.has_replicas(): args.read_group =
+    "file_name"` (`hasReplicas` = SOME experiment of the invocation has several files) -/
+def effectiveReadGroup (cmd : Option String) (hasReplicas : Bool) : Option String :=
+  if cmd.isNone && hasReplicas then some "file_name" else cmd
+
+/-- the set-up of an experiment of `fileCount` files in a BAM invocation with `--read_group cmd`
+    (`otherReplicas` = another experiment of the invocation has several files) -/
+def savingSetup (cmd : Option String) (otherReplicas : Bool) (fileCount : Nat) : Setup :=
+  mkSetup (effectiveReadGroup cmd (otherReplicas || decide (1 < fileCount))) fileCount
+
+/-- ... and what it stores at the end of `_info` -/
+def savedSetupOf (cmd : Option String) (otherReplicas : Bool) (fileCount : Nat) : SavedSetup :=
+  { fileCount := (fileCount : Int), readGroup := effectiveReadGroup cmd (otherReplicas || decide (1 < fileCount)) }
+
+/-- `read_group if read_group else None` -/
+def truthyStr : Option String → Option String
+  | some s => if s = "" then none else some s
+  | none => none
+
+/-- the set-up of an experiment of a restart with `--read_group cmd` (no replicas on its command line: one prefix per
+    experiment, `effectiveReadGroup cmd false = cmd`): grouping mode and file count of the saving run unless
+    `--read_group` is given again; a file of an older format (0 files) leaves `len(sample.file_list)` = 1 -/
+def restartSetup (cmd : Option String) (s : SavedSetup) : Setup :=
+  mkSetup (if cmd.isSome then cmd else truthyStr s.readGroup) (if 0 < s.fileCount then s.fileCount.toNat else 1)
+
+/-- the restart before the repair: its own command line, its own `file_list = [[prefix]]` -/
+def restartSetupOrig (cmd : Option String) : Setup := mkSetup cmd 1
+
+/-- `ReadAssignmentAggregator.__init__`: `if self.args.read_group and self.args.genedb` / `... and not
+    self.args.no_model_construction` - the grouped tables exist iff the grouping mode is truthy -/
+def groupedTablesWritten (s : Setup) : Bool := (truthyStr s.readGroup).isSome
+
+/-- `GraphBasedModelConstructor.construct_fl_isoforms`, the technical-replicas check on a candidate novel chain whose
+    reads carry the read groups `groups`: `if use_technical_replicas and len(set(groups)) <= 1: continue` -/
+def replicaCheckPasses (s : Setup) (groups : List String) : Bool :=
+  !(s.useTechnicalReplicas && decide (groups.eraseDups.length ≤ 1))
+
+/-- `collect_reads` with the set-up fields at the end of `_info` (everything before them is written as before) -/
+def collectReadsS (E : Env) (highMemory : Bool) (readGroups : List String) (unaligned : Nat) (setup : SavedSetup)
+    (chroms : List ChrIn) : Option Saved :=
+  match collectReads E highMemory readGroups unaligned chroms, writeSetup setup with
+  | some f, some sb => some { f with info := f.info ++ sb }
+  | _, _ => none
+
+/-- a run from BAM files, with the set-up it worked under: `unmapped` has one entry per file of the experiment -/
+def savingRunS (E : Env) (cfg : Config) (cmd : Option String) (otherReplicas : Bool) (readGroups : List String)
+    (unmapped : List Nat) (chroms : List ChrIn) : Option (Saved × Setup × RunOut) :=
+  match collectReadsS E cfg.highMemory readGroups (countUnaligned unmapped)
+          (savedSetupOf cmd otherReplicas unmapped.length) chroms with
+  | none => none
+  | some files =>
+    (processSaved E cfg unmapped (chroms.map (·.name)) files).map
+      (fun o => (files, savingSetup cmd otherReplicas unmapped.length, o))
+
+/-- a run restarted with `--read_assignments <prefix>` (and `--read_group cmd`) for the experiment of that prefix -/
+def restartRunS (E : Env) (cfg : Config) (cmd : Option String) (names : List String) (files : Saved) :
+    Option (Setup × RunOut) :=
+  match readSetup.run files.info with
+  | some (s, _) => (restartRun E cfg names files).map (fun o => (restartSetup cmd s, o))
+  | none => none
+
+/-- the restart before the repair (one prefix) -/
+def restartRunOrigS (E : Env) (cfg : Config) (cmd : Option String) (names : List String) (files : Saved) :
+    Option (Setup × RunOut) :=
+  (restartRun E cfg names files).map (fun o => (restartSetupOrig cmd, o))
+
+/-- `--read_assignments P0 P1 ...`: one experiment per prefix, each from ITS OWN files (`sample.file_list[0][0]`) -/
+def restartAllS (E : Env) (cfg : Config) (cmd : Option String) (exps : List (List String × Saved)) :
+    List (Option (Setup × RunOut)) :=
+  exps.map (fun x => restartRunS E cfg cmd x.1 x.2)
+
+/-- before the repair: `illumina_bam = [[]]` is indexed per experiment (IndexError for a second prefix = `none`) -/
+def restartAllOrig (E : Env) (cfg : Config) (cmd : Option String) (exps : List (List String × Saved)) :
+    Option (List (Option (Setup × RunOut))) :=
+  if 1 < exps.length then none else some (exps.map (fun x => restartRunOrigS E cfg cmd x.1 x.2))
+
+/-- ... and with only that line repaired: every experiment reads `args.read_assignments[0]` -/
+def restartAllFirstPrefix (E : Env) (cfg : Config) (cmd : Option String) (exps : List (List String × Saved)) :
+    List (Option (Setup × RunOut)) :=
+  exps.map (fun x => (exps.head?.bind (fun x0 => restartRunOrigS E cfg cmd x.1 x0.2)))
+
 /-! ### `downstream` on records that carry their own `chr_id` / `assignment_id` -/
 
 /-- `processChr` with the chromosome's key in the records (`chr_id`, interned) separate from its position `c` -/
